@@ -1,6 +1,7 @@
 // c02_native.cpp -- replay / fidelity for C02 against the REAL hexsim::Processor.
 //   replay <pc> <areg> <breg> <oreg> <in_byte> (<addr> <value>)*   one instruction of the real simulator vs isa_step
 //   fidelity <seed> <n>          real step vs extracted step (linked C) vs isa_step on seeded states
+#include <cstdlib>
 #include <cstdio>
 #include <cstdint>
 #include <cstring>
@@ -31,6 +32,8 @@ struct HexVerifAccess {
   static int &exitCode(hexsim::Processor &p) { return p.exitCode; }
   // run() executes exactly one iteration of its loop when cycles == maxCycles == 1
   static void oneStepSetup(hexsim::Processor &p) { p.cycles = 1; p.maxCycles = 1; p.running = true; }
+  // ... and exactly K iterations (unless the program exits first) when cycles == 1 and maxCycles == K
+  static void kStepSetup(hexsim::Processor &p, size_t K) { p.cycles = 1; p.maxCycles = K; p.running = true; }
 };
 
 struct Real {
@@ -57,6 +60,7 @@ static Outcome realStep(Real &r, uint32_t pc, uint32_t a, uint32_t b, uint32_t o
   return oc;
 }
 
+static std::string hexScratch(const char *leaf) { const char *b = getenv("HEX_SCRATCH"); return std::string(b && *b ? b : "/var/tmp") + "/" + leaf; } // scratch files live under out/<ID>/scratch (wiped with it)
 static std::string cmp(const Outcome &oc, const isa_state &s, const isa_event &ev, const isa_write &w, const uint32_t *memAfter, uint32_t oldAtW, int in_byte) {
   if (oc.thrown) return "error raised";
   if (oc.pc != s.pc) return "pc";
@@ -71,9 +75,50 @@ static std::string cmp(const Outcome &oc, const isa_state &s, const isa_event &e
   return "";
 }
 
+// K iterations inside ONE call of the real run() against isa_step applied K times.  "" = equal, "outside" = the ISA run
+// leaves the property's quantifier before K steps, anything else = first difference.
+static std::string multiRun(int K, uint32_t pc, uint32_t a, uint32_t b, uint32_t o, const std::string &input, const std::vector<std::pair<uint32_t, uint32_t>> &plant) {
+  Real r;
+  uint32_t *M = HexVerifAccess::memory(*r.p);
+  std::vector<uint32_t> S(ISA_MEM_WORDS, 0);
+  for (size_t i = plant.size(); i-- > 0;) if (plant[i].first < ISA_MEM_WORDS) S[plant[i].first] = plant[i].second;   // earlier entries win
+  memcpy(M, S.data(), ISA_MEM_WORDS * 4);
+  // reference run
+  isa_state s{pc, a, b, o, true, 0}; std::string refOut; size_t inPos = 0; int steps = 0;
+  for (int i = 0; i < K && s.running; i++) {
+    isa_write w; isa_event ev; isa_status st;
+    int inb = inPos < input.size() ? (int)(uint8_t)input[inPos] : -1;
+    isa_state probe = s; isa_step(&probe, S.data(), inb, &w, &ev, &st);
+    if (!st.defined || !st.in_range || ((ev.kind == EV_WRITE || ev.kind == EV_READ) && ev.to_file)) return "outside";
+    s = probe;
+    if (w.wr) S[w.waddr] = w.wdata;
+    if (ev.kind == EV_WRITE) refOut.push_back((char)ev.byte);
+    if (ev.kind == EV_READ && inPos < input.size()) inPos++;
+    steps++;
+  }
+  r.in.clear(); r.in.str(input); r.out.str("");
+  HexVerifAccess::pc(*r.p) = pc; HexVerifAccess::areg(*r.p) = a; HexVerifAccess::breg(*r.p) = b; HexVerifAccess::oreg(*r.p) = o;
+  HexVerifAccess::exitCode(*r.p) = 0;
+  HexVerifAccess::kStepSetup(*r.p, (size_t)K);
+  bool thrown = false;
+  try { r.p->run(); } catch (std::exception &) { thrown = true; }
+  if (thrown) return "error raised";
+  char buf[160];
+  if (HexVerifAccess::pc(*r.p) != s.pc || HexVerifAccess::areg(*r.p) != s.areg || HexVerifAccess::breg(*r.p) != s.breg || HexVerifAccess::oreg(*r.p) != s.oreg) {
+    snprintf(buf, sizeof buf, "after %d steps of one run(): real pc/areg/breg/oreg = %u/%u/%u/%u, ISA = %u/%u/%u/%u", steps, HexVerifAccess::pc(*r.p), HexVerifAccess::areg(*r.p),
+             HexVerifAccess::breg(*r.p), HexVerifAccess::oreg(*r.p), s.pc, s.areg, s.breg, s.oreg);
+    return buf;
+  }
+  if (HexVerifAccess::running(*r.p) != s.running) return "running flag differs after the run";
+  if (!s.running && HexVerifAccess::exitCode(*r.p) != (int)s.exit_value) return "exit value differs";
+  if (r.out.str() != refOut) return "standard output differs";
+  if (memcmp(M, S.data(), ISA_MEM_WORDS * 4) != 0) return "memory differs after the run";
+  return "";
+}
+
 int main(int argc, char **argv) {
   if (argc >= 7 && !strcmp(argv[1], "replay")) {
-    char tmpl[] = "/var/tmp/hexc02.XXXXXX"; char *d = mkdtemp(tmpl); if (d) chdir(d);
+    std::string tmplS = hexScratch("hexc02.XXXXXX"); char *d = mkdtemp(&tmplS[0]); if (d) chdir(d);
     Real r;
     uint32_t *M = HexVerifAccess::memory(*r.p);
     memset(M, 0, ISA_MEM_WORDS * 4);
@@ -165,6 +210,81 @@ int main(int argc, char **argv) {
     }
     printf("{\"compared\": %ld, \"skipped_outside_quantifier\": %ld, \"extract_mismatches\": %ld, \"spec_mismatches\": %ld, \"first_extract\": %s, \"first_spec\": %s}\n",
            compared, skipped, em, sm, em ? fe.c_str() : "null", sm ? fs.c_str() : "null");
+    return 0;
+  }
+  // multi <K> <pc> <a> <b> <o> <nin> <in bytes...> (<addr> <value>)*
+  //   ONE call of the real run() executing K iterations (cycles = 1, maxCycles = K) vs isa_step applied K times
+  if (argc >= 8 && !strcmp(argv[1], "multi")) {
+    std::string tmplS = hexScratch("hexc02.XXXXXX"); char *d = mkdtemp(&tmplS[0]); if (d) chdir(d);
+    int K = atoi(argv[2]);
+    uint32_t pc = strtoul(argv[3], 0, 0), a = strtoul(argv[4], 0, 0), b = strtoul(argv[5], 0, 0), o = strtoul(argv[6], 0, 0);
+    int nin = atoi(argv[7]); std::string input; int ai = 8;
+    for (int i = 0; i < nin && ai < argc; i++, ai++) input.push_back((char)atoi(argv[ai]));
+    std::vector<std::pair<uint32_t, uint32_t>> plant;
+    for (; ai + 1 < argc; ai += 2) plant.push_back({(uint32_t)strtoul(argv[ai], 0, 0), (uint32_t)strtoul(argv[ai + 1], 0, 0)});
+    std::string why = multiRun(K, pc, a, b, o, input, plant);
+    if (d) { chdir("/"); std::string c = std::string("rm -rf ") + d; system(c.c_str()); }
+    if (why == "outside") { printf("{\"ok\": null, \"why\": \"run leaves the property's quantifier (undefined byte, address out of range or stream file)\"}\n"); return 2; }
+    printf("{\"ok\": %s, \"why\": \"%s\"}\n", why.empty() ? "true" : "false", why.c_str());
+    return why.empty() ? 0 : 1;
+  }
+  // multisweep <seed> <n>: short runs (2..6 instructions in one run() call) from seeded states, among them runs that
+  // store into the word they are executing, take a branch into a word just stored, or read input into the code
+  if (argc >= 4 && !strcmp(argv[1], "multisweep")) {
+    std::string tmplS = hexScratch("hexc02.XXXXXX"); char *d = mkdtemp(&tmplS[0]); if (d) chdir(d);
+    std::mt19937_64 rng(strtoull(argv[2], 0, 10) * 7919 + 13);
+    long n = atol(argv[3]), compared = 0, outside = 0, bad = 0; std::string first;
+    static const uint8_t SIMPLE[] = {0x30, 0x31, 0x37, 0x3F, 0x40, 0x45, 0x4F, 0xD1, 0xD2, 0xF1, 0xB0, 0x50, 0x00, 0x12, 0x61, 0x71};
+    auto simple = [&]() { return SIMPLE[rng() % sizeof SIMPLE]; };
+    auto simpleWord = [&]() { return (uint32_t)simple() | (uint32_t)simple() << 8 | (uint32_t)simple() << 16 | (uint32_t)simple() << 24; };
+    for (long it = 0; it < n; it++) {
+      std::vector<std::pair<uint32_t, uint32_t>> plant; std::string input;
+      uint32_t pc, a = (uint32_t)rng(), b = (uint32_t)rng(), o = 0; int K = 2 + (int)(rng() % 5);
+      uint32_t sp = 1000 + (uint32_t)(rng() % 1000);
+      plant.push_back({1, sp}); plant.push_back({sp + 1, (uint32_t)rng()}); plant.push_back({sp + 2, (uint32_t)(rng() % 256)}); plant.push_back({sp + 3, 0});
+      int kind = (int)(it % 6);
+      if (kind == 0) {            // STAM W executed inside word W (2..15), areg = the replacement word
+        uint32_t W = 2 + (uint32_t)(rng() % 14); int pos = (int)(rng() % 3);
+        uint32_t word = simpleWord(); word = (word & ~(0xFFu << (8 * pos))) | (uint32_t)(0x20 | W) << (8 * pos);
+        plant.push_back({W, word}); pc = 4 * W + pos; a = simpleWord();
+      } else if (kind == 1) {     // STAI: breg + operand == current word
+        uint32_t W = 20 + (uint32_t)(rng() % 5000); uint32_t opr = (uint32_t)(rng() % 16); int pos = (int)(rng() % 3);
+        uint32_t word = simpleWord(); word = (word & ~(0xFFu << (8 * pos))) | (uint32_t)(0x80 | opr) << (8 * pos);
+        plant.push_back({W, word}); pc = 4 * W + pos; b = W - opr; a = simpleWord();
+      } else if (kind == 2) {     // READ whose result slot sp+1 is the word being executed
+        uint32_t W = 20 + (uint32_t)(rng() % 5000); int pos = (int)(rng() % 3);
+        uint32_t word = simpleWord(); word = (word & ~(0xFFu << (8 * pos))) | (uint32_t)0xD3 << (8 * pos);
+        plant.clear(); plant.push_back({1, W - 1}); plant.push_back({W + 1, 0}); plant.push_back({W, word}); pc = 4 * W + pos; a = 2;
+        input.push_back((char)simple());
+      } else if (kind == 3) {     // store into the NEXT word, then fall through into it
+        uint32_t W = 2 + (uint32_t)(rng() % 13);
+        uint32_t word = simpleWord(); word = (word & 0x00FFFFFFu) | (uint32_t)(0x20 | (W + 1)) << 24;
+        plant.push_back({W, word}); plant.push_back({W + 1, simpleWord()}); pc = 4 * W + 3; a = simpleWord();
+      } else if (kind == 4) {     // prefix chain, then a store into the current word, then the rest of the word
+        uint32_t W = 0x100 + (uint32_t)(rng() % 0xE00);
+        uint32_t word = (0xE0u | ((W >> 8) & 0xF)) | (0xE0u | ((W >> 4) & 0xF)) << 8 | (0x20u | (W & 0xF)) << 16 | (uint32_t)simple() << 24;
+        plant.push_back({W, word}); pc = 4 * W; a = (simpleWord() & 0xFF000000u) | (word & 0x00FFFFFFu); if (rng() & 1) a = simpleWord();
+      } else {                    // plain random straight-line code over two words
+        uint32_t W = 20 + (uint32_t)(rng() % 100000);
+        plant.push_back({W, simpleWord()}); plant.push_back({W + 1, simpleWord()}); pc = 4 * W + (uint32_t)(rng() % 4);
+      }
+      for (int q = 0; q < 20; q++) plant.push_back({(uint32_t)(rng() % 16), (uint32_t)rng() % 64});   // data words the simple loads may read (earlier entries win)
+      std::string why = multiRun(K, pc, a, b, o, input, plant);
+      if (why == "outside") { outside++; continue; }
+      compared++;
+      if (!why.empty()) {
+        if (!bad) {
+          char buf[128]; snprintf(buf, sizeof buf, "{\"K\": %d, \"pc\": %u, \"areg\": %u, \"breg\": %u, \"oreg\": %u, \"input\": [", K, pc, a, b, o); first = buf;
+          for (size_t i = 0; i < input.size(); i++) first += (i ? ", " : "") + std::to_string((int)(uint8_t)input[i]);
+          first += "], \"mem\": [";
+          for (size_t i = 0; i < plant.size(); i++) first += (i ? ", " : "") + std::to_string(plant[i].first) + ", " + std::to_string(plant[i].second);
+          first += "], \"why\": \"" + why + "\"}";
+        }
+        bad++;
+      }
+    }
+    if (d) { chdir("/"); std::string c = std::string("rm -rf ") + d; system(c.c_str()); }
+    printf("{\"runs_compared\": %ld, \"outside_quantifier\": %ld, \"mismatches\": %ld, \"first\": %s}\n", compared, outside, bad, bad ? first.c_str() : "null");
     return 0;
   }
   fprintf(stderr, "usage\n");
